@@ -96,8 +96,9 @@ mkarraytype(struct type *base, enum typequal qual, unsigned long long len)
 static int
 typerank(struct type *t)
 {
+	/* an enum that has not been completed has no underlying type yet: it is laid out like int */
 	if (t->kind == TYPEENUM)
-		t = t->base;
+		t = t->base ? t->base : &typeint;
 	assert(t->prop & PROPINT);
 	switch (t->kind) {
 	case TYPEBOOL:  return 1;
